@@ -218,10 +218,10 @@ type c20Res struct {
 
 func c20Kinds(full bool) []c20Rel {
 	var ks []c20Rel
-	versions := []string{"1.9.0", "2.0.0", "2.1.0", "3.0.0"}
+	versions := []string{"1.9.0", "2.0.0", "2.1.0", "10.0.0"}
 	flags := []string{"", "prerelease", "draft"}
 	if !full {
-		versions = []string{"2.0.0", "2.1.0", "3.0.0"}
+		versions = []string{"2.0.0", "2.1.0", "10.0.0"}
 		flags = []string{""}
 	}
 	for _, v := range versions {
@@ -264,7 +264,7 @@ func C20(r *core.Run) {
 		var cs []c20Case
 		full := c20Kinds(true)
 		red := c20Kinds(false)
-		for _, run := range []string{"2.0.0", "dev", "2.5.0-rc.1"} {
+		for _, run := range []string{"2.0.0", "dev", "2.5.0-rc.1", "10.1.0"} {
 			cs = append(cs, c20Case{Running: run})
 			for _, k := range full {
 				cs = append(cs, c20Case{Running: run, Rels: []c20Rel{k}})
@@ -281,7 +281,7 @@ func C20(r *core.Run) {
 			if thorough {
 				for _, a := range red {
 					for _, b := range red {
-						for _, c := range []c20Rel{red[0], red[len(red)/2], red[len(red)-1], {"3.0.0", "", "platform", "wrong", "valid"}} {
+						for _, c := range []c20Rel{red[0], red[len(red)/2], red[len(red)-1], {"10.0.0", "", "platform", "wrong", "valid"}} {
 							cs = append(cs, c20Case{Running: run, Rels: []c20Rel{a, b, c}})
 						}
 					}
@@ -291,12 +291,12 @@ func C20(r *core.Run) {
 		// environment deviations: every request of a healthy update answered wrongly (1 deviation; thorough: 2)
 		healthy := [][]c20Rel{
 			{{"2.1.0", "", "platform", "matching", "valid"}},
-			{{"3.0.0", "", "platform", "matching", "valid"}, {"2.1.0", "", "platform", "matching", "valid"}},
+			{{"10.0.0", "", "platform", "matching", "valid"}, {"2.1.0", "", "platform", "matching", "valid"}},
 			{{"2.1.0", "", "platform", "wrong", "valid"}},
 			{{"1.9.0", "", "platform", "matching", "valid"}},
 		}
 		kinds := []string{"404", "500", "conn", "trunc"}
-		for _, run := range []string{"2.0.0", "dev", "2.5.0-rc.1"} {
+		for _, run := range []string{"2.0.0", "dev", "2.5.0-rc.1", "10.1.0"} {
 			for _, h := range healthy {
 				for k := 1; k <= 4; k++ {
 					for _, kind := range kinds {
@@ -319,7 +319,7 @@ func C20(r *core.Run) {
 		wd := filepath.Join(in.Dir, fmt.Sprint("w", shard))
 		os.MkdirAll(wd, 0o755)
 		masters := map[string]string{}
-		for run, bin := range map[string]string{"2.0.0": "crs-su-2.0.0", "dev": "crs-su-dev", "2.5.0-rc.1": "crs-su-2.5.0-rc.1"} {
+		for run, bin := range map[string]string{"2.0.0": "crs-su-2.0.0", "dev": "crs-su-dev", "2.5.0-rc.1": "crs-su-2.5.0-rc.1", "10.1.0": "crs-su-10.1.0"} {
 			b, err := os.ReadFile(filepath.Join(r.Build, bin))
 			if err != nil {
 				panic(err)
@@ -457,9 +457,9 @@ func C20(r *core.Run) {
 	r.Cov["traces_validated_against_impl"] = tot.Runs
 	r.Cov["distinct_nontrivial"] = tot.Installed
 	r.Cov["exhaustive"] = len(deaths) == 0
-	r.Cov["bound"] = map[string]any{"release_kinds": len(c20Kinds(true)), "releases_per_catalogue": r.Pick(2, 3), "fault_deviations": r.Pick(1, 2), "fault_kinds": "404, 500, connection error, truncated body at request #1..4", "running_versions": []string{"2.0.0", "v0.0.0-dev", "v2.5.0-rc.1 (a pre-release newer than most releases of the menu)"}}
+	r.Cov["bound"] = map[string]any{"release_kinds": len(c20Kinds(true)), "releases_per_catalogue": r.Pick(2, 3), "fault_deviations": r.Pick(1, 2), "fault_kinds": "404, 500, connection error, truncated body at request #1..4", "running_versions": []string{"2.0.0", "v0.0.0-dev", "v2.5.0-rc.1 (a pre-release newer than most releases of the menu)", "v10.1.0 (newer than every release, two-digit major: numeric and textual order disagree)"}}
 	r.Cov["rule"] = "every catalogue of <= n releases over the release kinds (version below/equal/above/far above x published/prerelease/draft x platform asset listed after or before the others / other platforms only (other OS, other architecture, Windows zip with crs-toolchain.exe, .deb named like this platform; all with valid checksums) / none x checksum matching/absent/wrong/for another name x archive valid/corrupt) x running version, plus every placement of <= d HTTP faults over the requests of four reference catalogues; the real binary (repository code + fake transport) is copied into a sandbox and run as `self-update`; afterwards the executable must be byte-identical or the binary packed in a strictly newer, checksum-verified release for this platform with no fault injected; failures need a non-zero exit; states = executions, transitions = HTTP requests served; non-trivial = executions that installed something"
-	r.Cov["samples"] = []any{c20Case{"2.0.0", []c20Rel{{"2.1.0", "", "platform", "wrong", "valid"}}, ""}, c20Case{"dev", []c20Rel{{"3.0.0", "", "other", "matching", "valid"}, {"2.1.0", "", "platform", "matching", "valid"}}, "3:trunc"}}
+	r.Cov["samples"] = []any{c20Case{"2.0.0", []c20Rel{{"2.1.0", "", "platform", "wrong", "valid"}}, ""}, c20Case{"dev", []c20Rel{{"10.0.0", "", "other", "matching", "valid"}, {"2.1.0", "", "platform", "matching", "valid"}}, "3:trunc"}}
 	r.Assume = append(r.Assume, "the GitHub REST shape is the fake's (go-github v30 paths: release list, asset by id, browser download URL); TLS and redirects are outside the model",
 		"installing a newer verified pre-release is not forbidden by the statement and is accepted")
 }
